@@ -74,7 +74,8 @@ PROPS = {
                   {"name": "TestC18Hammer", "quick": 6, "shards_quick": 3, "thorough": 40, "shards": 8, "race": True},
                   {"name": "TestC18Eviction", "quick": None, "thorough": None},
                   {"name": "TestC18Recency", "quick": 150, "thorough": 1500, "shards": 2},
-                  {"name": "TestC18SnapshotStable", "quick": 200, "thorough": 3000, "shards": 2}],
+                  {"name": "TestC18SnapshotStable", "quick": 200, "thorough": 3000, "shards": 2},
+                  {"name": "TestC18Preemption", "quick": 60, "shards_quick": 4, "thorough": 600, "shards": 12}],
     },
     "C17": {
         "level": "exploration",
@@ -179,6 +180,7 @@ PROPS = {
         "tests": [{"name": "TestC12ParseRobust", "quick": 20000, "thorough": 200000, "shards": 4},
                   {"name": "TestC12RoundTrip", "quick": 5000, "thorough": 50000, "shards": 4},
                   {"name": "TestC12Evaluate", "quick": 50, "shards_quick": 3, "thorough": 300, "shards": 12},
+                  {"name": "TestC12SearchAfterBuild", "quick": 6, "shards_quick": 3, "thorough": 60, "shards": 6},
                   {"name": "FuzzQueryParse", "fuzztime": 60}],
     },
     "C11": {
@@ -280,7 +282,8 @@ PROPS = {
                         "objects left unreferenced by an interrupted write are not a violation",
                         "cache files (excerpts, index) may be stale after a crash; only git data and clocks are judged"],
         "tests": [{"name": "TestC06CrashPoints", "quick": 24, "shards_quick": 3, "thorough": 150, "shards": 16},
-                  {"name": "TestC06TornClock", "quick": 150, "thorough": 2000, "shards": 2}],
+                  {"name": "TestC06TornClock", "quick": 150, "thorough": 2000, "shards": 2},
+                  {"name": "TestC06ApiMutations", "quick": 8, "shards_quick": 3, "thorough": 60, "shards": 8}],
     },
     "C05": {
         "level": "exploration",
@@ -329,10 +332,12 @@ PROPS = {
                 "Also generated: fetch without merge, the packaged identity.Pull + bug.Pull (post-condition: everything fetched is merged), stock git gc between actions, restarts with lowered clock files, edits of another replica's identity (identities may diverge), and a planned stale-merge episode.",
         "assumptions": ["identities are exchanged before the bugs that reference them (as RepoCache.Pull/Push do)",
                         "a rejected non-fast-forward push is a legal outcome"],
-        "tests": [{"name": "TestC01Convergence", "quick": 40, "shards_quick": 4, "thorough": 300, "shards": 16}],
+        "tests": [{"name": "TestC01Convergence", "quick": 40, "shards_quick": 4, "thorough": 300, "shards": 16},
+                  {"name": "TestC01CacheConvergence", "quick": 30, "shards_quick": 3, "thorough": 300, "shards": 8}],
     },
     "C02": {
         "level": "exploration",
+        "needs_cli": True,
         "rule": "same generated histories as C01; the monitored step is every pull (fetch + identity merge + bug merge). Oracle per "
                 "pull: what was readable stays readable, pre is a subsequence of post, post = pre U remote (remote read on the bare "
                 "repository itself), remote-only bugs are created, report new/nothing/updated agrees with ref movement and op sets, "
@@ -347,7 +352,8 @@ PROPS = {
                 "Identities may diverge when a replica edits another replica's identity: the diverged one must be refused, untouched, and the merge must go on with the others.",
         "assumptions": ["single-threaded harness: the bare remote equals the just-fetched state"],
         "tests": [{"name": "TestC02Pull", "quick": 60, "shards_quick": 4, "thorough": 400, "shards": 16},
-                  {"name": "TestC02CachePull", "quick": 40, "shards_quick": 3, "thorough": 300, "shards": 8}],
+                  {"name": "TestC02CachePull", "quick": 40, "shards_quick": 3, "thorough": 300, "shards": 8},
+                  {"name": "TestC02CLIPull", "quick": 8, "shards_quick": 3, "thorough": 60, "shards": 8}],
     },
     "C03": {
         "level": "exploration",
